@@ -135,7 +135,7 @@ class ALL(Prop):
     name = 'ALL'
     module = 'C01'
     rule = 'all streams; full observation equality'
-    bins = ['h_str_rich', 'h_slice_rich']
+    bins = ['h_str_rich', 'h_slice_rich', 'h_str_simple', 'h_slice_simple', 'h_str_cheap', 'h_slice_cheap', 'h_str_empty', 'h_slice_empty']
 
     def __init__(self, streams=None):
         self.streams = streams
@@ -149,7 +149,7 @@ class ALL(Prop):
             kind = 'str' if n[0] % 2 == 0 else 'slice'
             lines.append(case_line(f'a{n[0]}', g, inputs, kind=kw.pop('kind', kind), **kw))
             n[0] += 1
-        want = self.streams or ['c01', 'c02', 'emit', 'rec', 'deco', 'ctx']
+        want = self.streams or ['c01', 'c02', 'emit', 'rec', 'deco', 'ctx', 'ek']
         by = gen.enum_by_size(3, gen.C01_LEAVES, gen.C01_UNARIES, gen.C01_BINARIES, gen.C01_TERNARIES)
         small = [g for s in (1, 2) for g in by[s]]
         c01 = [g for s in sorted(by) for g in by[s]]
@@ -179,6 +179,20 @@ class ALL(Prop):
                 for w in wraps:
                     for g2 in gen.insert_at_nodes(g, w):
                         add(g2, inp01)
+        if 'ek' in want:
+            pool = base[:300] + [g2 for g in base[300:420] for w in gen.RECOVERIES + gen.DECORATIONS[2:] for g2 in gen.insert_at_nodes(g, w)[:3]]
+            for g in pool:
+                for ek in ('simple', 'cheap', 'empty'):
+                    add(g, inp01, ek=ek)
+        if 'ctx' in want:
+            for g in gen.ctx_family():
+                add(g, inputs_all(5, [gen.A, gen.B, 50, 51]))
+            pool = base[:500]
+            for g in pool:
+                for g2 in gen.insert_at_nodes(g, lambda a: ('mwctx', a))[:2]:
+                    for w in gen.CTX_PROVIDERS:
+                        for g3 in gen.insert_at_nodes(g2, w)[:4]:
+                            add(g3, inp01)
         return lines
 
     def compare(self, line, k, impl_M, model_M, spec_S):
@@ -186,7 +200,7 @@ class ALL(Prop):
 
 
 PROPS = {p.name: p for p in [C01(), ALL()]}
-for _s in ['c01', 'c02', 'emit', 'rec', 'deco', 'ctx']:
+for _s in ['c01', 'c02', 'emit', 'rec', 'deco', 'ctx', 'ek']:
     PROPS['ALL_' + _s] = ALL([_s])
     PROPS['ALL_' + _s].name = 'ALL_' + _s
 
